@@ -11,7 +11,7 @@ class A(Adapter):
     name = "graph_coloring"
     lean = "graph_coloring"
     serves = {"C01", "C04", "C05", "C06", "C08", "C09", "C10", "C11", "C12"}
-    ops = ("state", "step", "judge", "instance", "bounds")
+    ops = ("state", "step", "judge", "instance", "bounds", "spec")
     terminate_on_invalid = True
     max_steps = 60
 
@@ -53,6 +53,32 @@ class A(Adapter):
                 return None
             return True
         return False
+
+    # ---- wave 3 (run by the C09 / C12 sweeps): C01 spec membership theorems graph_coloring_*_obs_valid / _obsSpec_generated
+    def synthetic(self, ctx, cfg, env, runner, rng, drv):
+        """declared specs vs the model's obsSpec / actionSpec, the reset timestep, observations as spec-level arrays,
+        (obsSpec n).valid vs observation_spec.validate, and the invariant SpecInv on every visited state"""
+        import jax
+
+        import spec_wave3 as w3
+        from common import DriverError
+
+        w3.check_specs(ctx, self, cfg, env, drv)
+        w3.check_reset_and_obs(ctx, self, cfg, env, runner, rng, drv, 3 if ctx.quick else 8, 10 if ctx.quick else 60)
+        # SpecInv along uniform play that continues after LAST (the current node wraps round)
+        s, ts = runner.reset(jax.random.PRNGKey(int(rng.integers(1 << 31))))
+        states = [s]
+        for t in range(min(2 * env.num_nodes + 1, 45)):
+            s, ts = runner.step(s, self.choose_action(env, s, ts, "uniform", rng, t))
+            states.append(s)
+        reps = drv.batch([dict(op="graph_coloring.state", cfg=cfg.cfg, state=self.ser_state(env, st)) for st in states])
+        for st, m in zip(states, reps):
+            ctx.evaluations += 1
+            info = {"env": self.name, "config": cfg.cid, "state": self.ser_state(env, st)}
+            if isinstance(m, DriverError):
+                ctx.disagree(self.name, f"state op rejects an implementation state: {m}", info)
+            elif m["spec_inv"] is not True:
+                ctx.fail(self.name, "spec_inv", "the invariant SpecInv of the C01 membership theorems is false on a state of an in-spec play", info)
 
     def _acts(self, env):
         # not cached: envlib caches the action list by id(env), and ids are reused once an environment is freed
